@@ -287,7 +287,7 @@ impl Check for C16 {
         "C16"
     }
     fn rule(&self) -> String {
-        "proptest-generated invalid invocations: 16 rejection classes (no args, single path, missing source, directory without -r, several sources to an absent/file destination, directory onto a file, source textually identical to the destination or to dest/basename, --force with --no-clobber, bad --driver/--reflink/--backup/--block-size/--workers values, unknown flag, malformed --glob pattern) x position of the offending argument among 0-3 valid sources x destination state (absent, file, empty directory, populated directory) x driver x harmless extra flags x 4 variants of the bad value. Oracle: exit != 0 and the byte-and-metadata snapshot of the whole sandbox (directory mtimes included, atime excluded) is unchanged. Every case is non-trivial; distinct by case hash.".into()
+        "proptest-generated invalid invocations: 20 rejection classes (destination designating the source through a symlink / hard link / another spelling, several sources selected by ONE --glob pattern with a non-directory destination, no args, single path, missing source, directory without -r, several sources to an absent/file destination, directory onto a file, source textually identical to the destination or to dest/basename, --force with --no-clobber, bad --driver/--reflink/--backup/--block-size/--workers values, unknown flag, malformed --glob pattern) x position of the offending argument among 0-3 valid sources x destination state (absent, file, empty directory, populated directory) x driver x harmless extra flags x 4 variants of the bad value. Oracle: exit != 0 and the byte-and-metadata snapshot of the whole sandbox (directory mtimes included, atime excluded) is unchanged. Every case is non-trivial; distinct by case hash.".into()
     }
     fn needs(&self) -> Needs {
         Needs { xcp: true, probe: false, fallback: false }
